@@ -25,6 +25,11 @@ templates, escapes, quoting, regular expressions, markup, paths - in the trees o
 (valid document + a fault from a grammar: problem kind x texts carried x location x copies x line number), with the
 clause "a lenient read of an input with a problem has recorded a warning"; further shapes of the entry points
 (pathlib, bytes path, bytearray, memoryview), boundary inputs, an interpreter with -OO.
+Round 4 (see the comment above PY_LIMIT): the nesting depth of the input against the interpreter's recursion limit -
+stream deep, every reader call in a fresh thread with a known, small number of frames below it and the default
+recursion limit; XML chains around libxml2's depth limit (oracle-only through all entry points, and as abstract
+trees tied to the model incl. the frames the reader's module stacks up, theorem C16.nesting_within_recursion_limit),
+JSON / YAML / dictionaries up to the depth the decoders decode, one reader for several deep inputs.
 """
 import contextlib
 import io
@@ -691,9 +696,10 @@ def wf_problems(doc):
 def finish(res, reader_warnings, fn):
     """run fn() under the time limit and classify what happens"""
     import odml
+    shallow = _SHALLOW[0]          # round 4: the reader call runs in a fresh thread (see call_shallow)
     try:
         with time_limit(TIME_LIMIT):
-            doc = fn()
+            doc = call_shallow(fn, res) if shallow else fn()
     except _Timeout:
         res["outcome"] = "timeout"
         return res
@@ -706,9 +712,15 @@ def finish(res, reader_warnings, fn):
         res["outcome"] = "doc"
         try:
             with time_limit(TIME_LIMIT):
-                res["doc"] = snapshot(doc)
-                res["wf"] = wf_problems(doc)
-                res["paths"] = doc_paths(doc)
+                if shallow:
+                    # documents of any depth: the same clauses, inspected without recursion
+                    res["wf"] = wf_problems_deep(doc)
+                    res["sig"] = doc_sig(doc)
+                    res["flat"] = doc_flat(doc)
+                else:
+                    res["doc"] = snapshot(doc)
+                    res["wf"] = wf_problems(doc)
+                    res["paths"] = doc_paths(doc)
         except _Timeout:
             res["outcome"] = "timeout"
         except Exception as exc:
@@ -2141,6 +2153,702 @@ def judge_fault(case, obs):
     return out
 
 
+# ============================================================================= round 4: how deep the input nests
+# Dimension that was missing (design.d/C16.md, "Strengthening after seeded round 4"): the NESTING DEPTH of the
+# input, measured against the resources of the interpreter. The readers recurse once per nested Section; the
+# XML library refuses documents nested deeper than 256 elements, the JSON / YAML decoders have limits of their
+# own - what is left between "a handful of levels" (all the streams above) and "the decoder gives up" is a band
+# of well-formed inputs on which the reader's own recursion must not run into Python's recursion limit (a
+# RecursionError is neither a Document nor a ParserException). Whether it does depends on how many frames the
+# CALLER already has on the stack, so every reader call of this stream is made
+#   * in a fresh thread: the frames below the call are Thread._bootstrap, _bootstrap_inner, run, the thread's
+#     target function and the thunk - the number is measured and recorded (obs["base_frames"], 5 in CPython 3.12),
+#     no frame of the framework, of multiprocessing or of this module's dispatch is below it. No real caller
+#     (a script at module level has 1-2 frames) is meaningfully shallower: this is the weakest reading of
+#     "any text" along this dimension;
+#   * with the interpreter's default recursion limit (PY_LIMIT = 1000, set for the call if something changed it).
+# Measured on the unchanged tree (tools: sys.setprofile in such a thread): XML 3 frames per nested Section + ~21
+# at the innermost object: 780 frames at 253 Sections + a Property (256 nested elements, the deepest libxml2 accepts), i.e.
+# a margin of ~220 frames; dictionaries 1 frame per Section + ~17: ~770 at the deepest JSON text json.loads
+# decodes, YAML decoding itself needs 4 frames per level and is the bottleneck there.
+# Sub-streams (all oracle-only but xml_tie): xml (chain of Sections x depth 1 ... 3000, most of them in the band
+# 228 ... 261 around libxml2's limit x siblings in front of / behind the nested child at every level x what the
+# innermost Section holds (nothing, a Property, 11 Properties, a fault of the round-3 grammar, duplicates) x a level
+# without name / type x other chains (Property in Property, alternating, unknown elements, text elements) x a
+# second chain x indentation, comments, PIs x all entry points / encodings / options of round 2), xml_tie (the
+# same as abstract trees, compared with the Lean model), dict (JSON text, YAML flow and block text, the decoded
+# value through DictReader strict / lenient; depth up to what the decoder decodes), seq (one reader object for
+# 2-3 deep inputs, also after a refused one).
+PY_LIMIT = 1000
+_SHALLOW = [False]
+_MEASURE = [False]          # count frames during the call (second run of a case, for the tie with Reader.readerStack)
+READER_FILE = os.path.join("odml", "tools", "xmlparser.py")      # the module the property is anchored in
+LIBXML_MAX_DEPTH = 256      # C16.libxmlMaxDepth: a tree lxml hands out is never deeper (checked on every deep tie case)
+CALLER_INNER_MAX = 222      # hypothesis of C16.nesting_within_recursion_limit, checked on every measured case
+DEEP_BAND = list(range(228, 262))
+DEEP_LOW = [1, 2, 3, 10, 50, 100, 150, 199, 200, 201, 210, 220]
+DEEP_BEYOND = [262, 300, 400, 1000, 3000]
+# dictionaries: json.loads (CPython 3.12, called from such a thread) decodes up to ~745 nested Sections,
+# yaml.safe_load up to ~240 (with the room decode_shallow keeps: 725 and 217); the bands end where the decoders end (decided per case by decode_shallow)
+DEEP_JSON = [1, 10, 100, 200, 250, 300, 400, 500, 600, 800, 1000, 3000]
+DEEP_YAML = [1, 10, 50, 100, 150, 180, 240, 250, 300, 1000]
+DEEP_CHAINS = ["section"] * 16 + ["alt", "unknown", "property", "text"]
+DEEP_LEAVES = ["prop", "prop", "none", "props", "fault", "fault", "dup", "brackets"]
+
+
+def call_shallow(fn, res=None, limit=PY_LIMIT):
+    """fn() in a fresh thread with the default recursion limit: the caller's stack is as shallow as a caller's
+    stack can be and the same in every run (not the 30-40 frames of framework + pool + this module)."""
+    import threading
+    box = {}
+
+    def target():
+        frame, n = sys._getframe(), 0
+        while frame is not None:
+            n, frame = n + 1, frame.f_back
+        box["base"] = n + 1                         # + the frame of fn itself
+        if measure:
+            # Python frames on the stack (all / of the XML reader's module), maxima over the call
+            cur = [n, 0]
+            top = [n, 0]
+
+            def prof(frame, event, _arg):
+                if event == "call":
+                    cur[0] += 1
+                    if cur[0] > top[0]:
+                        top[0] = cur[0]
+                    if frame.f_code.co_filename.endswith(READER_FILE):
+                        cur[1] += 1
+                        if cur[1] > top[1]:
+                            top[1] = cur[1]
+                elif event == "return":
+                    cur[0] -= 1
+                    if frame.f_code.co_filename.endswith(READER_FILE):
+                        cur[1] -= 1
+            sys.setprofile(prof)
+        try:
+            box["value"] = fn()
+        except BaseException as exc:                # handed to the caller's thread
+            box["exc"] = exc
+        finally:
+            if measure:
+                sys.setprofile(None)
+                box["tstack"], box["rstack"] = top
+    measure = _MEASURE[0]
+    old_limit = sys.getrecursionlimit()
+    old_size = None
+    try:
+        old_size = threading.stack_size(64 * 1024 * 1024)      # C stack: never the limiting resource
+    except (ValueError, RuntimeError):
+        pass
+    try:
+        if old_limit != limit:
+            sys.setrecursionlimit(limit)
+        th = threading.Thread(target=target, name="c16-shallow")
+        th.daemon = True
+        th.start()
+        th.join()                                   # interrupted by the alarm of time_limit / the framework
+    finally:
+        if sys.getrecursionlimit() != old_limit:
+            sys.setrecursionlimit(old_limit)
+        if old_size is not None:
+            try:
+                threading.stack_size(old_size)
+            except (ValueError, RuntimeError):
+                pass
+    if res is not None:
+        res["base_frames"] = box.get("base")
+        if measure:
+            res["tstack"], res["rstack"] = box.get("tstack"), box.get("rstack")
+    if "exc" in box:
+        raise box["exc"]
+    return box.get("value")
+
+
+def wf_problems_deep(doc):
+    """the clauses of wf_problems (C03 / C04 for a loaded document, public API) without recursion and without
+    its depth cap: the cap stands for 'this is a cycle', here the set of visited objects does that"""
+    import odml
+    out = []
+    seen = set()
+
+    def canonical(i):
+        try:
+            return isinstance(i, str) and str(uuid.UUID(i)) == i
+        except Exception:
+            return False
+
+    def check_names(children, what, where):
+        names = []
+        for c in children:
+            nm = c.name
+            if nm is None or (isinstance(nm, str) and nm == "") or (not isinstance(nm, (str, int, float)) and not nm):
+                out.append("%s with empty name in %s" % (what, where))
+            for other in names:
+                try:
+                    same = (other == nm)
+                except Exception:
+                    same = False
+                if same:
+                    out.append("two %ss named %r in %s" % (what, nm, where))
+            names.append(nm)
+    if doc.parent is not None:
+        out.append("document has a parent")
+    todo = [(doc, None)]
+    while todo and len(out) < 50:
+        node, parent = todo.pop()
+        if id(node) in seen:
+            out.append("object reachable twice")
+            continue
+        seen.add(id(node))
+        if len(seen) > 10 ** 6:
+            out.append("more than 10^6 objects")
+            break
+        if not canonical(node.id):
+            out.append("id %r is not a canonical uuid" % (node.id,))
+        if parent is not None and node.parent is not parent:
+            out.append("child %r does not report its container as parent" % (node.name,))
+        if isinstance(node, odml.property.BaseProperty):
+            continue
+        check_names(node.sections, "Section", repr(getattr(node, "name", "document")))
+        if hasattr(node, "properties"):
+            check_names(node.properties, "Property", repr(node.name))
+            todo.extend((p, node) for p in node.properties)
+        todo.extend((s, node) for s in node.sections)
+    return out[:5]
+
+
+def doc_sig(doc):
+    """what a returned document holds, flat: 'depth|name of the container|S or P|name' per object"""
+    out = []
+    todo = [(s, 1, "") for s in doc.sections]
+    while todo and len(out) < 200000:
+        sec, depth, pname = todo.pop()
+        out.append("%d|%s|S|%s" % (depth, pname, sec.name))
+        for p in sec.properties:
+            out.append("%d|%s|P|%s" % (depth + 1, sec.name, p.name))
+        for s in sec.sections:
+            todo.append((s, depth + 1, sec.name))
+    return out
+
+
+def doc_flat(doc):
+    """the returned document in document order, flat: [depth, 'S' / 'P', name (None: the object's own id)]"""
+    out = []
+    todo = [(s, 1) for s in reversed(list(doc.sections))]
+    while todo and len(out) < 200000:
+        sec, depth = todo.pop()
+        nm = name_enc(sec)
+        out.append([depth, "S", None if nm["is_id"] else nm["n"]])
+        for p in sec.properties:
+            nm = name_enc(p)
+            out.append([depth + 1, "P", None if nm["is_id"] else nm["n"]])
+        todo.extend((s, depth + 1) for s in reversed(list(sec.sections)))
+    return out
+
+
+def model_flat(obj):
+    """the same form of the document the model returns (driver encoding of Obj)"""
+    out = []
+    todo = [(s, 1) for s in reversed(obj["secs"])]
+    while todo:
+        sec, depth = todo.pop()
+        out.append([depth, "S", None if sec["name"] is None else sec["name"]["g"]])
+        for p in sec["props"]:
+            out.append([depth + 1, "P", None if p["name"] is None else p["name"]["g"]])
+        todo.extend((s, depth + 1) for s in reversed(sec["secs"]))
+    return out
+
+
+def deep_depth(rng):
+    r = rng.random()
+    if r < 0.55:
+        return rng.choice(DEEP_BAND)
+    if r < 0.70:
+        return rng.choice(DEEP_LOW)
+    if r < 0.88:
+        return rng.randrange(1, 262)
+    return rng.choice(DEEP_BEYOND)
+
+
+def gen_deep_spec(rng, tie=False):
+    """the description of one deeply nested XML document (the text is built from it by build_deep_xml)"""
+    chain = rng.choice(DEEP_CHAINS)
+    depth = deep_depth(rng)
+    if tie:
+        depth = min(depth, 300)                   # the abstract tree travels as JSON
+    _, toks = spice_tokens(rng, True)
+    spec = {"depth": depth, "chain": chain, "leaf": rng.choice(DEEP_LEAVES), "seed": rng.randrange(0, 10 ** 9),
+            "sib": rng.choice([0, 0, 1, 2, 3]), "sibrate": rng.choice([0.05, 0.3, 1.0]),
+            "miss": rng.randrange(0, depth) if rng.random() < 0.12 else None,
+            "misswhat": rng.choice(["name", "type", "both"]),
+            "case": rng.random() < 0.15, "pretty": (not tie) and rng.random() < 0.3,
+            "top": rng.choice([0, 0, 0, 1, 2]), "second": deep_depth(rng) if rng.random() < 0.12 else 0,
+            "kind": rng.choice([k for k, _ in XML_FAULT_KINDS if k != "dup"]),
+            "toks": toks if rng.random() < 0.5 else ["x", "text", "1"],
+            "names": rng.choice(["s", "s", "s", "n", u"\xe9"]) if not tie else rng.choice(["s", "s", "n"])}
+    if tie and spec["second"]:
+        spec["second"] = min(spec["second"], 300)
+    return spec
+
+
+def build_deep_xml(spec, with_tree=False):
+    """-> {"text": the document without XML declaration, "want": signature (doc_sig) of every valid object whose
+    containers are all valid, "tree": abstract tree (with_tree; text == serialize(tree))}. Built level by level,
+    without recursion."""
+    import random
+    rng = random.Random(spec["seed"])
+    toks = spec["toks"]
+    want = []
+    pretty = bool(spec.get("pretty")) and not with_tree
+
+    def spell(tag):
+        if spec["case"] and rng.random() < 0.3:
+            return rng.choice([tag.upper(), tag.capitalize()])
+        return tag
+
+    def siblings(level, cname, tagged, alive, in_section=True):
+        """valid objects next to the nested child of level `level` (their container is the chain element)"""
+        nodes = []
+        if rng.random() >= spec["sibrate"]:
+            return nodes
+        for j in range(rng.randrange(0, spec["sib"] + 1)):
+            nm = "%s%d_%d" % (tagged, level, j)
+            if in_section and rng.random() < 0.6:
+                nodes.append(elem(spell("property"), None, [elem("name", "p" + nm), elem("value", rng.choice(["1", "[1,2]", "x"]))]))
+                if alive:
+                    want.append("%d|%s|P|p%s" % (level + 2, cname, nm))
+            else:
+                nodes.append(elem(spell("section"), None, [elem("name", "q" + nm), elem("type", "t")]))
+                if alive:
+                    want.append("%d|%s|S|q%s" % (level + 2, cname, nm))
+        return nodes
+
+    def chain(prefix, depth, kind, leafkind, miss, start_depth, container):
+        """-> per level: (tag, nodes in front of the nested child, nodes behind it), the nodes inside the innermost"""
+        levels = []
+        alive = True
+        cname = container
+        for i in range(depth):
+            if kind == "section" or i == 0:
+                tag = "section"
+            elif kind == "alt":
+                tag = "property" if i % 2 else "section"
+            elif kind == "unknown":
+                tag = rng.choice(["foo", "foo", "values", "x.y"])
+            elif kind == "property":
+                tag = "property"
+            else:
+                tag = rng.choice(["definition", "reference", "repository"])     # not name / type: the outermost Section stays valid
+            if tag != "section" and alive:
+                alive = False                               # nothing below an element that is no Section is demanded
+            name = "%s%d" % (prefix, i)
+            head = []
+            if tag in ("section", "property"):
+                skip = miss == i
+                if not (skip and spec["misswhat"] in ("name", "both")):
+                    head.append(elem("name", name))
+                if tag == "section" and not (skip and spec["misswhat"] in ("type", "both")):
+                    head.append(elem("type", "t"))
+                if skip:
+                    alive = False
+                if rng.random() < 0.1:
+                    head.append(elem("definition", fault_text(rng, toks)))
+                if rng.random() < 0.3:
+                    rng.shuffle(head)
+            if alive:
+                want.append("%d|%s|S|%s" % (start_depth + i, cname, name))
+            front = siblings(start_depth + i - 1, name, prefix + "a", alive, tag == "section")
+            back = siblings(start_depth + i - 1, name, prefix + "b", alive, tag == "section")
+            if rng.random() < 0.15:
+                front, head = head + front, []            # the nested child in front of name / type
+                levels.append((spell(tag), [], front + back if rng.random() < 0.5 else back + front))
+            else:
+                levels.append((spell(tag), head + front, back))
+            cname = name
+        # inside the innermost element
+        inner = []
+        lvl = start_depth + depth
+        if leafkind == "prop":
+            inner = [elem("property", None, [elem("name", "leaf"), elem("value", "[1,2]"), elem("type", "int")])]
+            if alive:
+                want.append("%d|%s|P|leaf" % (lvl, cname))
+        elif leafkind == "props":
+            inner = [elem("property", None, [elem("name", "p%d" % j), elem("value", str(j))]) for j in range(11)]
+            if alive:
+                want.extend("%d|%s|P|p%d" % (lvl, cname, j) for j in range(11))
+        elif leafkind == "fault":
+            inner = gen_xml_fault(spec["kind"], rng, toks, None, None, False)
+        elif leafkind == "brackets":
+            # nesting inside a text: value lists, tuples and cardinalities bracketed n times
+            n = rng.choice([10, 1000, 100000])
+            o, c = rng.choice(["[]", "()", "{}"])
+            inner = [elem("property", None, [elem("name", "bk"), elem("value", o * n + "1" + c * n)]),
+                     elem("property", None, [elem("name", "bc"), elem("val_cardinality", "(" * n + "1,2" + ")" * n)]),
+                     elem("property", None, [elem("name", "leaf"), elem("value", "1")])]
+            if alive:
+                want.append("%d|%s|P|leaf" % (lvl, cname))
+        elif leafkind == "dup":
+            inner = [elem("section", None, [elem("name", "dupS"), elem("type", "t")]),
+                     elem("property", None, [elem("name", "dupP"), elem("value", "1")])]
+            inner += gen_xml_fault("dup", rng, toks, "dupS", "dupP", False)
+            inner.append(elem("section", None, [elem("name", "yy"), elem("type", "t")]))
+            if alive:
+                want.extend(["%d|%s|S|dupS" % (lvl, cname), "%d|%s|P|dupP" % (lvl, cname), "%d|%s|S|yy" % (lvl, cname)])
+        return levels, inner
+
+    def deco(level):
+        if not pretty:
+            return ""
+        r = rng.random()
+        extra = "<!-- c -->" if r < 0.03 else ("<?pi x?>" if r < 0.05 else "")
+        return "\n" + " " * min(level, 300) + extra
+
+    def chain_text(levels, inner, start_depth):
+        pre, post = [], []
+        for i, (tag, front, back) in enumerate(levels):
+            pre.append(deco(start_depth + i) + "<" + tag + ">" + "".join(deco(start_depth + i + 1) + serialize(n) for n in front))
+            post.append("".join(deco(start_depth + i + 1) + serialize(n) for n in back) + deco(start_depth + i) + "</" + tag + ">")
+        body = "".join(deco(start_depth + len(levels)) + serialize(n) for n in inner)
+        if not body and levels and not levels[-1][1] and not levels[-1][2]:
+            # an element without any content: written the way serialize() writes it
+            tag = levels[-1][0]
+            pre[-1] = pre[-1][:pre[-1].rindex("<" + tag + ">")] + "<" + tag + "/>"
+            post[-1] = ""
+        return "".join(pre) + body + "".join(reversed(post))
+
+    def chain_tree(levels, inner):
+        node_kids = list(inner)
+        node = None
+        for tag, front, back in reversed(levels):
+            kids = front + (node_kids if node is None else [node]) + back
+            node = elem(tag, None, kids)
+        return node
+
+    top = []
+    for j in range(spec["top"]):
+        top.append(elem("section", None, [elem("name", "t%d" % j), elem("type", "t"),
+                                          elem("property", None, [elem("name", "p"), elem("value", "x")])]))
+        want.extend(["1||S|t%d" % j, "2|t%d|P|p" % j])
+    levels, inner = chain(spec["names"], spec["depth"], spec["chain"], spec["leaf"], spec["miss"], 1, "")
+    text = '<odML version="1.1">' + "".join(serialize(n) for n in top) + chain_text(levels, inner, 1)
+    kids = top + [chain_tree(levels, inner)] if with_tree else None
+    if spec["second"]:
+        levels2, inner2 = chain("u", spec["second"], "section", "prop", None, 1, "")
+        text += chain_text(levels2, inner2, 1)
+        if with_tree:
+            kids.append(chain_tree(levels2, inner2))
+    tail = [elem("section", None, [elem("name", "last"), elem("type", "t")])] if rng.random() < 0.5 else []
+    if tail:
+        want.append("1||S|last")
+    text += "".join(serialize(n) for n in tail) + (deco(0) if pretty else "") + "</odML>"
+    out = {"text": text, "want": want}
+    if with_tree:
+        out["tree"] = elem("odML", None, kids + tail, [["version", "1.1"]])
+    return out
+
+
+def gen_deep_dict_spec(rng, yaml_text=False):
+    r = rng.random()
+    if yaml_text:
+        depth = rng.randrange(185, 236) if r < 0.5 else (rng.choice(DEEP_YAML) if r < 0.8 else rng.randrange(1, 240))
+    else:
+        depth = rng.randrange(620, 760) if r < 0.5 else (rng.choice(DEEP_JSON) if r < 0.8 else rng.randrange(1, 760))
+    return {"depth": depth,
+            "seed": rng.randrange(0, 10 ** 9), "sib": rng.choice([0, 0, 1, 2]), "sibrate": rng.choice([0.05, 0.3, 1.0]),
+            "props": rng.choice([0.0, 0.1, 1.0]), "order": rng.choice(["first", "last", "mixed"]),
+            "leaf": rng.choice(["prop", "none", "nondict", "unknown_key", "dup", "bad_value", "nested_value"]),
+            "miss": rng.random() < 0.1}
+
+
+def build_deep_dict(spec):
+    """-> {"json": JSON text (also YAML flow style), "yaml": YAML block style, "want": signature}; level by level"""
+    import random
+    rng = random.Random(spec["seed"])
+    d = spec["depth"]
+    want = []
+    jpre, jpost, ypre, ypost = [], [], [], []
+    miss = rng.randrange(0, d) if spec["miss"] else None
+    alive = True
+    cname = ""
+    for i in range(d):
+        name = "s%d" % i
+        ind = "  " * (i + 1)
+        pairs = [] if miss == i else [["name", name]]
+        pairs.append(["type", "t"])
+        if miss == i:
+            alive = False
+        if alive:
+            want.append("%d|%s|S|%s" % (i + 1, cname, name))
+        if rng.random() < spec["props"]:
+            pairs.append(["properties", [{"name": "p", "value": [1, 2]}, {"name": "q", "type": "string", "value": ["x"]}]])
+            if alive:
+                want.extend(["%d|%s|P|p" % (i + 2, name), "%d|%s|P|q" % (i + 2, name)])
+        front, back = [], []
+        if rng.random() < spec["sibrate"]:
+            for j in range(rng.randrange(0, spec["sib"] + 1)):
+                where = front if rng.random() < 0.5 else back
+                nm = "a%d_%d" % (i, j)
+                where.append({"name": nm, "type": "t"})
+                if alive:
+                    want.append("%d|%s|S|%s" % (i + 2, name, nm))
+        order = spec["order"] if spec["order"] != "mixed" else rng.choice(["first", "last"])
+        # JSON: the pairs of this level, "sections" first or last
+        body = ", ".join("%s: %s" % (json.dumps(k), json.dumps(v)) for k, v in pairs)
+        fronts = "".join(json.dumps(x) + ", " for x in front)
+        backs = "".join(", " + json.dumps(x) for x in back)
+        if order == "last":
+            jpre.append("{" + body + ', "sections": [' + fronts)
+            jpost.append(backs + "]}")
+        else:
+            jpre.append('{"sections": [' + fronts)
+            jpost.append(backs + "], " + body + "}")
+        # YAML block style (keys in the order name, type, properties, sections)
+        lines = []
+        first = True
+        for k, v in pairs:
+            lines.append(ind + ("- " if first else "  ") + "%s: %s" % (k, json.dumps(v)))
+            first = False
+        lines.append(ind + "  sections:")
+        for x in front:
+            lines.append(ind + "  - " + json.dumps(x))
+        ypre.append("\n".join(lines) + "\n")
+        ypost.append("".join(ind + "  - " + json.dumps(x) + "\n" for x in back))
+        cname = name
+    leaf = spec["leaf"]
+    inner = []
+    if leaf == "prop":
+        inner = [{"name": "leafsec", "type": "t", "properties": [{"name": "leaf", "value": [1, 2], "type": "int"}]}]
+        if alive:
+            want.extend(["%d|%s|S|leafsec" % (d + 1, cname), "%d|leafsec|P|leaf" % (d + 2)])
+    elif leaf == "nondict":
+        inner = [5, None, "x", {"name": "after", "type": "t"}]
+        if alive:
+            want.append("%d|%s|S|after" % (d + 1, cname))
+    elif leaf == "unknown_key":
+        inner = [{"name": "uk", "type": "t", "foo": 1, "section": []}, {"name": "after", "type": "t"}]
+        if alive:
+            want.append("%d|%s|S|after" % (d + 1, cname))
+    elif leaf == "dup":
+        inner = [{"name": "k", "type": "t"}, {"name": "k", "type": "t"}, {"name": "after", "type": "t"}]
+        if alive:
+            want.extend(["%d|%s|S|k" % (d + 1, cname), "%d|%s|S|after" % (d + 1, cname)])
+    elif leaf == "nested_value":
+        # nesting inside an attribute: a value / name / definition / cardinality that is a list in a list in a list ...
+        n = rng.choice([10, 100, 400])
+        key = rng.choice(["value", "value", "name", "definition", "unit", "val_cardinality", "id", "dependency"])
+        nested = 1
+        for _ in range(n):
+            nested = [nested]
+        prop = {"name": "zz", key: nested}
+        inner = [{"name": "nv", "type": "t", "properties": [prop, {"name": "ok", "value": [1]}]}, {"name": "after", "type": "t"}]
+        if alive:
+            want.extend(["%d|%s|S|nv" % (d + 1, cname), "%d|nv|P|ok" % (d + 2), "%d|%s|S|after" % (d + 1, cname)])
+    elif leaf == "bad_value":
+        inner = [{"name": "bv", "type": "t", "properties": [{"name": "zz", "type": "int", "value": ["x"]}, {"name": "ok", "value": [1]}]}]
+        if alive:
+            want.extend(["%d|%s|S|bv" % (d + 1, cname), "%d|bv|P|ok" % (d + 2)])
+    jtext = '{"odml-version": "1.1", "Document": {"author": "x", "sections": [' + "".join(jpre) + \
+            ", ".join(json.dumps(x) for x in inner) + "".join(reversed(jpost)) + "]}}"
+    ind = "  " * (d + 1)
+    yinner = "".join(ind + "- " + json.dumps(x) + "\n" for x in inner)
+    ytext = "odml-version: '1.1'\nDocument:\n  author: x\n  sections:\n" + "".join(ypre) + yinner + "".join(reversed(ypost))
+    if d == 0 and not inner:
+        ytext = "odml-version: '1.1'\nDocument:\n  author: x\n  sections: []\n"
+    return {"json": jtext, "yaml": ytext, "want": want}
+
+
+def gen_deep(rng, ascii_names=False):
+    """one case of the stream deep"""
+    r = rng.random()
+    if r < 0.45:
+        x = gen_xspec(rng, ascii_names)
+        if rng.random() < 0.7:
+            enc = rng.choice(ENC_UTF8)
+            x.update({"codec": enc[0], "decl": enc[1], "bom": enc[2], "faithful": enc[3], "same": enc[4]})
+        return {"stream": "deep", "kind": "xml", "spec": gen_deep_spec(rng), "x": x}
+    if r < 0.68:
+        return {"stream": "deep", "kind": "xml_tie", "spec": gen_deep_spec(rng, True), "mode": rng.choice(["strict", "lenient"]),
+                "entry": rng.choice(["string", "string", "file", "bytes", "file_rb", "bytesio"])}
+    if r < 0.88:
+        via = rng.choice(["JSON", "JSON", "YAML_flow", "YAML_block", "direct", "direct"])
+        return {"stream": "deep", "kind": "dict", "spec": gen_deep_dict_spec(rng, via.startswith("YAML")), "via": via,
+                "entry": rng.choice(["odml_string", "odml_file", "load"]), "mode": rng.choice(["strict", "lenient"]),
+                "sw": rng.random() < 0.4}
+    steps = []
+    reader = rng.choice(["xml_strict", "xml_lenient", "xml_lenient", "odml_xml", "odml_json", "dict_lenient", "dict_strict"])
+    for _ in range(rng.randrange(2, 4)):
+        if reader in ("xml_strict", "xml_lenient", "odml_xml"):
+            spec = gen_deep_spec(rng)
+            spec["names"] = "s"
+        else:
+            spec = gen_deep_dict_spec(rng)
+        steps.append({"spec": spec, "via": rng.choice(["string", "file"])})
+    return {"stream": "deep", "kind": "seq", "reader": reader, "sw": rng.random() < 0.3, "steps": steps}
+
+
+def decode_shallow(text, fmt):
+    """what the text decodes to when the decoder is called the way the readers call it - with some room to spare,
+    so that a text is only 'decodable' when the reader's own call of the decoder (a frame or two deeper) succeeds
+    as well: JSON is decoded inside 40 further brackets (the C decoder counts its own nesting), YAML with a
+    recursion limit lowered by 100 frames (its composer and constructor are Python)"""
+    def dec():
+        if fmt == "JSON":
+            return json.loads("[" * 40 + text + "]" * 40)
+        import yaml
+        return yaml.safe_load(text)
+    try:
+        with time_limit(TIME_LIMIT * 2):
+            val = call_shallow(dec, None, PY_LIMIT if fmt == "JSON" else PY_LIMIT - 100)
+    except _Timeout:
+        return ("undecodable", "timeout")
+    except Exception as exc:
+        return ("undecodable", fw.exc_name(exc))
+    if fmt == "JSON":
+        for _ in range(40):
+            val = val[0]
+    return ("value", val)
+
+
+def run_deep(case):
+    kind = case["kind"]
+    _SHALLOW[0] = True
+    try:
+        if kind == "xml":
+            built = build_deep_xml(case["spec"])
+            obs = run_xml_x(built["text"], case["x"])
+            obs["want"] = built["want"]
+            return obs
+        if kind == "xml_tie":
+            built = build_deep_xml(case["spec"], True)
+            text = built["text"]
+            obs = run_xml(text, case["mode"], case["entry"])
+            obs["root_ok"] = xml_root_ok(text)
+            obs["want"] = built["want"]
+            obs["lxml_ok"] = str_root(text)[0] is not None
+            if obs["lxml_ok"]:
+                mt = model_tree(built["tree"])
+                csvfail = []
+                csv_failures(mt, csvfail)
+                obs["csvfail"] = csvfail
+                obs["env"] = xml_env(mt, csvfail)
+                # the same call once more, counting frames (not part of the verdict of the oracle: the
+                # profile function is a frame itself)
+                _MEASURE[0] = True
+                try:
+                    second = run_xml(text, case["mode"], case["entry"])
+                finally:
+                    _MEASURE[0] = False
+                obs["rstack"], obs["tstack"] = second.get("rstack"), second.get("tstack")
+            return obs
+        if kind == "dict":
+            return run_deep_dict(case)
+        return run_deep_seq(case)
+    finally:
+        _SHALLOW[0] = False
+
+
+def run_deep_dict(case):
+    from odml.tools.dict_parser import DictReader
+    built = build_deep_dict(case["spec"])
+    via = case["via"]
+    sw = bool(case["sw"])
+    fmt = "JSON" if via in ("JSON", "direct") else "YAML"
+    text = built["yaml"] if via == "YAML_block" else built["json"]
+    res = {"sw": sw, "want": built["want"], "via": via}
+    kind, val = decode_shallow(text, fmt)
+    res["decoded"] = kind
+    if kind == "value":
+        res["shaped"] = dict_shaped(val)
+        res["root_ok"] = dict_root_ok(val)
+    if via == "direct":
+        if kind != "value":
+            return {"skipped": "no decoder produces a value this deep"}
+        lenient = case["mode"] == "lenient"
+        rd = DictReader(show_warnings=sw, ignore_errors=lenient)
+        res["lenient"] = lenient
+        return finish(res, lambda: rd.warnings, lambda: rd.to_odml(val))
+    entry = case["entry"]
+    res["entry"] = entry
+    res["lenient"] = fmt == "YAML" and entry in ("odml_file", "load")
+    fn, warn = dict_text_call(text, fmt, entry, sw)
+    return finish(res, warn, fn)
+
+
+def run_deep_seq(case):
+    from odml.tools.xmlparser import XMLReader
+    from odml.tools.odmlparser import ODMLReader
+    from odml.tools.dict_parser import DictReader
+    reader = case["reader"]
+    sw = bool(case["sw"])
+    fmt = "JSON" if reader in ("odml_json", "dict_lenient", "dict_strict") else "XML"
+    if reader in ("xml_strict", "xml_lenient"):
+        rd = XMLReader(ignore_errors=(reader == "xml_lenient"), show_warnings=sw)
+    elif reader in ("dict_strict", "dict_lenient"):
+        rd = DictReader(ignore_errors=(reader == "dict_lenient"), show_warnings=sw)
+    else:
+        rd = ODMLReader(fmt, show_warnings=sw)
+    out = []
+    for i, st in enumerate(case["steps"]):
+        o = {"sw": sw, "in_scope": True}
+        via = st["via"]
+        if fmt == "XML":
+            built = build_deep_xml(st["spec"])
+            text = built["text"]
+            o["root_ok"] = root_is_ok(str_root(text)[0])
+            o["lenient"] = (via == "file") if reader == "odml_xml" else (reader == "xml_lenient")
+        else:
+            built = build_deep_dict(st["spec"])
+            text = built["json"]
+            kind, val = decode_shallow(text, "JSON")
+            o["in_scope"] = kind == "value" and dict_shaped(val)
+            o["root_ok"] = kind == "value" and dict_root_ok(val)
+            o["lenient"] = reader == "dict_lenient"
+            if reader.startswith("dict") and kind != "value":
+                o["skipped"] = "undecodable"
+                out.append(o)
+                continue
+        o["want"] = built["want"]
+        if reader.startswith("dict"):
+            fn = lambda val=val: rd.to_odml(val)
+        elif via == "file":
+            path = tmp_path("_d%d.%s" % (i, fmt.lower()))
+            with io.open(path, "w", encoding="utf-8", newline="") as fh:
+                fh.write(text)
+            fn = lambda path=path: rd.from_file(path)
+        else:
+            fn = lambda text=text: rd.from_string(text)
+        finish(o, lambda: rd.warnings, fn)
+        out.append(o)
+    return {"steps": out}
+
+
+def judge_deep(case, obs):
+    kind = case["kind"]
+
+    def with_want(o, lenient, in_scope, compare, label=""):
+        out = judge(o, lenient, in_scope, None, label)
+        if compare and o.get("outcome") == "doc":
+            have = set(o.get("sig", []))
+            missing = [p for p in o.get("want", []) if p not in have]
+            if missing:
+                out.append(label + "reader dropped valid parts: %d of %d, e.g. %s" % (len(missing), len(o.get("want", [])), missing[:4]))
+        return out
+    if kind == "xml":
+        x = case["x"]
+        return with_want(obs, x_lenient(x), obs.get("in_scope", False), x["same"] and obs.get("in_scope", False))
+    if kind == "xml_tie":
+        return with_want(obs, case["mode"] == "lenient", True, True)
+    if kind == "dict":
+        in_scope = obs.get("decoded") == "value" and obs.get("shaped", False)
+        return with_want(obs, obs.get("lenient", False), in_scope, in_scope)
+    out = []
+    for i, o in enumerate(obs["steps"]):
+        if "skipped" not in o:
+            out += with_want(o, o["lenient"], o["in_scope"], o["in_scope"], "[step %d] " % i)
+    return out
+
+
 # ---- another process: locale and hash seed ---------------------------------------------------------------------------
 SUB_ENVS = [{"LC_ALL": "C", "LANG": "C", "PYTHONUTF8": "0", "PYTHONCOERCECLOCALE": "0", "PYTHONHASHSEED": "0"},
             {"LC_ALL": "POSIX", "LANG": "", "PYTHONUTF8": "0", "PYTHONCOERCECLOCALE": "0", "PYTHONHASHSEED": "1"},
@@ -2202,6 +2910,22 @@ class C16(fw.Check):
         "original_dict_leaks_non_dict_root",
         "original_dict_leaks_wrong_shapes",
         "original_dict_drops_valid_section",
+        "nesting_within_recursion_limit",
+        "readerStack_le_depth",
+        "chain_needs_three_per_level",
+        "readXml_eq_outcome",
+        "lenient_returns_valid_parts",
+        "strict_returns_valid_parts_or_raises",
+        "strict_result_is_lenient_result",
+        "valid_input_read_in_full",
+        "returned_document_wf",
+        "returned_objects_le_constructor_calls",
+        "readDict_eq_outcome",
+        "dict_lenient_returns_valid_parts",
+        "dict_strict_returns_valid_parts_or_raises",
+        "dict_strict_result_is_lenient_result",
+        "dict_valid_input_read_in_full",
+        "dict_returned_document_wf",
     ]]
     trusted_base = [
         "Lean 4.33.0 kernel; axioms propext, Classical.choice, Quot.sound only (audited per theorem)",
@@ -2218,7 +2942,11 @@ class C16(fw.Check):
         "digits; generated tags are ASCII",
         "names in dictionaries compare with Python ==; modelled for None/bool/int/str/list/dict "
         "(True == 1 at top level), floats by repr",
-        "nesting depth of generated inputs stays far below Python's recursion limit",
+        "nesting depth (round 4): Reader.readerStack counts the frames of the XML reader's own module, 3 per nested "
+        "object + 1 + 8; C16.nesting_within_recursion_limit assumes that the caller and the library code below the "
+        "innermost parse_tag together need <= 222 frames (measured on every deep tie case: <= 17 from a fresh thread) "
+        "and that libxml2 refuses more than 256 nested elements (observed on every run: deeper documents end in "
+        "ParserException); the dictionary reader's stack need (1 frame per Section) is checked by the oracle only",
     ]
     rule = ("grammar-generated abstract XML trees and JSON-like values over the odML element names "
             "(wrong nesting, repeated/missing/unknown/case-variant elements, attributes, empty text, "
@@ -2240,7 +2968,16 @@ class C16(fw.Check):
             "documents with a fault from a grammar (22 XML and 12 dictionary problem kinds x texts carried by the "
             "faulty object x location x 1-300 copies x 0-70000 lines in front) through all entry points incl. "
             "pathlib / bytes paths / bytearray / memoryview; boundary inputs (empty, root only, 10^7 characters in "
-            "one text, 3000 siblings); interpreter with -OO. A case is non-trivial when the "
+            "one text, 3000 siblings); interpreter with -OO. Round 4 (stream deep): documents nested 1 ... 3000 levels, most "
+            "of them in the band just below the decoder's own limit (libxml2 256 elements, json.loads ~745 Sections, "
+            "yaml.safe_load ~240), each reader call made in a fresh thread (5 frames below the call) with the default "
+            "recursion limit: Section chains x siblings in front of / behind the nested child x content of the "
+            "innermost Section (Property, 11 Properties, fault grammar, duplicates) x a level without name / type x "
+            "chains of other elements x a second chain x indentation / comments / PIs x all XML entry points, "
+            "encodings and options; the same as abstract trees compared with the model (outcome, warnings, document, "
+            "frames of the reader's module <= Reader.readerStack); JSON text, YAML flow and block text and the decoded "
+            "value through ODMLReader / odml.load / DictReader; one reader object for 2-3 deep inputs. "
+            "A case is non-trivial when the "
             "reader got past the version check (document returned, or ParserException from inside the "
             "tree, or warnings collected); distinct = distinct canonical JSON of the case.")
 
@@ -2307,7 +3044,18 @@ class C16(fw.Check):
             cases.append({"stream": "keep", "desc": desc, "format": rng.choice(["XML", "XML", "JSON", "YAML"]),
                           "fault": rng.randrange(0, 1000), "where": rng.randrange(0, 1000)})
         cases += self.generate_round2(q, rng, res)
-        return cases
+        # the expensive cases (sub: a fresh interpreter each; deep) spread evenly over the list: the pool hands out
+        # chunks in list order, a chunk made of them alone would be the tail of the run
+        slow = [c for c in cases if c["stream"] in ("sub", "deep")]
+        rest = [c for c in cases if c["stream"] not in ("sub", "deep")]
+        slow.sort(key=lambda c: c["stream"] != "sub")
+        out = []
+        stride = max(1, len(rest) // max(1, len(slow)))
+        for i, c in enumerate(slow):
+            out.append(c)
+            out.extend(rest[i * stride:(i + 1) * stride])
+        out.extend(rest[len(slow) * stride:])
+        return out
 
     def generate_round2(self, q, rng, res):
         """oracle-only streams (see the comment above XML_ENTRIES)"""
@@ -2322,11 +3070,18 @@ class C16(fw.Check):
             cases.append(gen_reuse(rng, res))
         for _ in range(1200 if q else 12000):
             cases.append(gen_fault(rng))                 # round 3
+        for _ in range(450 if q else 4500):
+            cases.append(gen_deep(rng))                  # round 4
         for env in SUB_ENVS:
             sub = []
             for _ in range(40 if q else 300):
                 r = rng.random()
-                if r < 0.2:
+                if r < 0.08:
+                    c = gen_deep(rng, True)              # round 4
+                    if c["kind"] == "dict":
+                        c["entry"] = "odml_string"
+                    sub.append(c)
+                elif r < 0.2:
                     c = gen_fault(rng, True)
                     if c["format"] != "XML":
                         c["entry"] = "odml_string"
@@ -2409,6 +3164,8 @@ class C16(fw.Check):
             return run_reuse(case)
         if st == "fault":
             return run_fault(case)
+        if st == "deep":
+            return run_deep(case)
         if st == "sub":
             obs = run_sub(case)
             for o in obs["sub"]:
@@ -2495,6 +3252,12 @@ class C16(fw.Check):
             mode = case["mode"]
             return [{"op": "dict_read", "value": case["value"], "mode": mode, "guards": "fixed",
                      "env": obs["env"]}]
+        if st == "deep" and case["kind"] == "xml_tie" and obs.get("lxml_ok") and obs.get("env") is not None:
+            # round 4: the abstract tree is rebuilt from the description (what libxml2 refuses is no tree)
+            tree = build_deep_xml(case["spec"], True)["tree"]
+            return [{"op": "xml_read", "tree": model_tree(tree), "mode": case["mode"],
+                     "guards": "fixed", "csvfail": obs["csvfail"], "env": obs["env"]},
+                    {"op": "xml_stack", "tree": model_tree(tree)}]
         return []
 
     @staticmethod
@@ -2523,17 +3286,37 @@ class C16(fw.Check):
             return []
         a = answers[0]
         out = []
+        if len(answers) > 1 and obs.get("rstack") is not None:
+            # round 4: Reader.readerStack is an upper bound of the frames the reader's module stacks up, and
+            # the hypothesis of C16.nesting_within_recursion_limit (caller + code below the reader) holds
+            st = answers[1]
+            if obs["rstack"] > st["stack"]:
+                out.append("the XML reader's module had %d frames on the stack, the model allows %d (element depth %d)"
+                           % (obs["rstack"], st["stack"], st["depth"]))
+            if st["depth"] > LIBXML_MAX_DEPTH:
+                out.append("lxml accepted a document with %d nested elements (theorem assumes <= %d)" % (st["depth"], LIBXML_MAX_DEPTH))
+            if obs["tstack"] - obs["rstack"] > CALLER_INNER_MAX:
+                out.append("%d frames outside the XML reader's module at the deepest point (theorem assumes <= %d)"
+                           % (obs["tstack"] - obs["rstack"], CALLER_INNER_MAX))
         want = a["outcome"]
         if want == "leak":
             want = "leak of " + a.get("class", "?")
         if want != obs.get("outcome"):
-            return ["model outcome %s, implementation outcome %s" % (want, obs.get("outcome"))]
+            return out + ["model outcome %s, implementation outcome %s" % (want, obs.get("outcome"))]
         if want == "doc":
             if obs.get("via", "direct") == "direct" and a["warnings"] != obs.get("warnings"):
                 out.append("model collects %d warnings, implementation %s" % (a["warnings"], obs.get("warnings")))
             if "doc" in obs and not self.snap_matches(a["doc"], obs["doc"]):
                 out.append("model document %s, implementation document %s"
                            % (json.dumps(a["doc"])[:600], json.dumps(obs["doc"])[:600]))
+            if "flat" in obs:
+                mf = model_flat(a["doc"])
+                if mf != obs["flat"]:
+                    k = 0
+                    while k < min(len(mf), len(obs["flat"])) and mf[k] == obs["flat"][k]:
+                        k += 1
+                    out.append("model document and implementation document differ at object %d: model %s, implementation %s"
+                               % (k, mf[k:k + 3], obs["flat"][k:k + 3]))
         return out
 
     # -- oracle (property over the public API, independent of the model) ------
@@ -2551,6 +3334,8 @@ class C16(fw.Check):
             return judge(obs, obs.get("lenient", False), obs.get("decoded") == "value" and obs.get("shaped", False))
         if st == "fault":
             return judge_fault(case, obs)
+        if st == "deep":
+            return judge_deep(case, obs)
         if st == "reuse":
             for i, o in enumerate(obs["steps"]):
                 if "skipped" not in o:
@@ -2606,11 +3391,16 @@ class C16(fw.Check):
             return classify(obs["steps"][int(m.group(1))], m.group(2))
         if st in ("xml_file", "keepx", "dict_py", "fault"):
             return classify(obs, failure)
+        if st == "deep":
+            if case["kind"] == "seq":
+                m = re.match(r"\[step (\d+)\] (.*)", failure, re.S)
+                return classify(obs["steps"][int(m.group(1))], m.group(2)) if m else None
+            return classify(obs, failure)
         return None
 
     def tag(self, case, obs):
         st = case["stream"]
-        if st in ("reuse", "sub"):
+        if st in ("reuse", "sub") or (st == "deep" and case["kind"] == "seq"):
             return ("%s:%s" % (st, case.get("reader", "")), True)
         outcome = obs.get("outcome", "?")
         if outcome not in ALLOWED:
@@ -2624,6 +3414,9 @@ class C16(fw.Check):
             mode = obs.get("via", "")
         if st == "fault":
             mode = "%s/%s" % (case["format"], case["kind"])
+        if st == "deep":
+            d = case["spec"]["depth"]
+            mode = "%s/%s" % (case["kind"], "1-199" if d < 200 else ("200-227" if d < 228 else ("228-261" if d < 262 else "262-")))
         return ("%s:%s:%s" % (st, mode, outcome), nontrivial)
 
 
